@@ -109,7 +109,7 @@ func TestPropQinQMapper(t *testing.T) {
 			}
 		}
 		sub := rapid.SampledFrom(subs)
-		rt.Repeat(map[string]func(*rapid.T){
+		rt.Repeat(guard(&h.dead, map[string]func(*rapid.T){
 			"register": func(rt *rapid.T) {
 				p := genPair.Draw(rt, "pair")
 				s := sub.Draw(rt, "sub")
@@ -191,12 +191,7 @@ func TestPropQinQMapper(t *testing.T) {
 				drop(s)
 				check(rt, "UnregisterSubscriber")
 			},
-			"": func(rt *rapid.T) {
-				if h.dead {
-					rt.Skip("known finding fired")
-				}
-			},
-		})
+		}))
 		cls := []string{"qinq"}
 		if rejectedRange {
 			cls = append(cls, "qinq:out-of-range-rejected")
@@ -205,7 +200,7 @@ func TestPropQinQMapper(t *testing.T) {
 			cls = append(cls, "qinq:contended")
 		}
 		if nt || contended {
-			cls = append(cls, "nt:reacquired-or-contended")
+			cls = append(cls, "nt:reacquired-or-contended", "nt:"+cls[0])
 		}
 		ops := h.ops
 		vstat.Case(nt || contended, h.fp(), func() any { return map[string]any{"component": "qinq", "ops": ops} }, cls...)
